@@ -181,30 +181,41 @@ Section Inv.
   Lemma mem_srs_in t l : mem_srs t l = true -> exists a, In a l /\ srs_eq t a = true.
   Proof. unfold mem_srs. intros H. apply existsb_exists in H. exact H. Qed.
 
-  (* what preferred_src returns when the target itself is not available *)
-  Lemma preferred_src_origin d t avail s :
-    preferred_src d t avail = Some s -> mem_srs t avail = false ->
-    In s avail \/
-    (exists prefs, dict_get t d = Some prefs /\ In s prefs /\ mem_srs s avail = true).
+  Lemma first_avail_in prefs avail a : first_avail prefs avail = Some a -> In a avail.
   Proof.
-    unfold preferred_src. destruct avail as [|a0 rest]; [discriminate|].
-    intros H Hm. rewrite Hm in H.
-    destruct (dict_get t d) as [prefs|] eqn:Ed.
-    - destruct (find (fun p => mem_srs p (a0 :: rest)) prefs) as [p|] eqn:Ef.
-      + inversion H; subst. apply find_some in Ef. destruct Ef as [Hin Hp].
-        right. exists prefs. repeat split; assumption.
-      + left. destruct (find (fun a => Bool.eqb (s_latlong a) (s_latlong t)) (a0 :: rest)) as [a|] eqn:Ea.
-        * inversion H; subst. apply find_some in Ea. tauto.
-        * inversion H; subst. left. reflexivity.
-    - left. destruct (find (fun a => Bool.eqb (s_latlong a) (s_latlong t)) (a0 :: rest)) as [a|] eqn:Ea.
-      + inversion H; subst. apply find_some in Ea. tauto.
-      + inversion H; subst. left. reflexivity.
+    induction prefs as [|p r IH]; cbn; [discriminate|].
+    destruct (find (fun a0 => srs_eq a0 p) avail) as [x|] eqn:E.
+    - intros H. injection H as <-. apply find_some in E. tauto.
+    - exact IH.
   Qed.
 
-  Lemma dict_get_in t d prefs : dict_get t d = Some prefs -> exists k, In (k, prefs) d /\ code_eq t k = true.
+  (* preferred_src always returns an element of the available list *)
+  Lemma preferred_src_in d t avail s : preferred_src d t avail = Some s -> In s avail.
   Proof.
-    unfold dict_get. destruct (find (fun e => code_eq t (fst e)) d) as [e|] eqn:E; [|discriminate].
-    intros H. inversion H; subst. apply find_some in E. destruct e as [k p]. exists k. cbn in *. tauto.
+    unfold preferred_src. destruct avail as [|a0 rest]; [discriminate|].
+    destruct (find (fun a => srs_eq a t) (a0 :: rest)) as [x|] eqn:E0.
+    - intros H. injection H as <-. apply find_some in E0. tauto.
+    - destruct (match dict_get t d with Some prefs => first_avail prefs (a0 :: rest) | None => None end) as [x|] eqn:E1.
+      + intros H. injection H as <-. destruct (dict_get t d) as [prefs|]; [|discriminate].
+        eapply first_avail_in. exact E1.
+      + destruct (find (fun a => Bool.eqb (s_latlong a) (s_latlong t)) (a0 :: rest)) as [a|] eqn:Ea.
+        * intros H. injection H as <-. apply find_some in Ea. tauto.
+        * intros H. injection H as <-. left. reflexivity.
+  Qed.
+
+  (* the SRS object of the request is an element of supported_srs, or - only when the query already uses a
+     configured code - the query's own object with that code *)
+  Lemma request_srs_code_supported src q r :
+    wms_get_map T kn kd src q = Request r -> w_srs src <> [] ->
+    In (s_code (r_srs r)) (map s_code (w_srs src)).
+  Proof.
+    intros H Hne. apply wms_request_inv in H. destruct H as (_ & _ & _ & _ & Ho & _).
+    destruct Ho as [[He _]|[(s & Hf & Hc)|(_ & Hf & Hp)]]; [congruence| |].
+    - apply find_some in Hf. destruct Hf as [Hin _].
+      destruct Hc as [[Hce Hr]|Hr]; rewrite Hr.
+      + unfold code_eq in Hce. replace (s_code (q_srs q)) with (s_code s) by lia. apply in_map. exact Hin.
+      + apply in_map. exact Hin.
+    - apply in_map. eapply preferred_src_in. exact Hp.
   Qed.
 
   (* class level: the SRS of the request is equal (as _SRS.__eq__ sees it) to a configured one *)
@@ -216,32 +227,7 @@ Section Inv.
     destruct Ho as [[He _]|[(s & Hf & Hc)|(_ & Hf & Hp)]]; [congruence| |].
     - apply find_some in Hf. destruct Hf as [Hin Heq]. exists s. split; [exact Hin|].
       destruct Hc as [[_ Hr]|Hr]; rewrite Hr; [exact Heq|]. unfold srs_eq. lia.
-    - apply find_none_mem in Hf. apply preferred_src_origin in Hp; [|exact Hf].
-      destruct Hp as [Hin|(prefs & _ & _ & Hm)].
-      + exists (r_srs r). split; [exact Hin|]. unfold srs_eq. lia.
-      + apply mem_srs_in in Hm. exact Hm.
-  Qed.
-
-  (* the configuration spells the SRS of preferred_src_proj lists as supported_srs does *)
-  Definition pref_spelled_as_supported (src : wms_source) : Prop :=
-    forall k prefs p, In (k, prefs) (w_pref src) -> In p prefs -> mem_srs p (w_srs src) = true ->
-                      In (s_code p) (map s_code (w_srs src)).
-
-  (* code level: the srs_code sent is one of the configured codes *)
-  Lemma request_srs_code_supported src q r :
-    wms_get_map T kn kd src q = Request r -> w_srs src <> [] -> pref_spelled_as_supported src ->
-    In (s_code (r_srs r)) (map s_code (w_srs src)).
-  Proof.
-    intros H Hne Hsp. apply wms_request_inv in H. destruct H as (_ & _ & _ & _ & Ho & _).
-    destruct Ho as [[He _]|[(s & Hf & Hc)|(_ & Hf & Hp)]]; [congruence| |].
-    - apply find_some in Hf. destruct Hf as [Hin _].
-      destruct Hc as [[Hce Hr]|Hr]; rewrite Hr.
-      + unfold code_eq in Hce. replace (s_code (q_srs q)) with (s_code s) by lia. apply in_map. exact Hin.
-      + apply in_map. exact Hin.
-    - apply find_none_mem in Hf. apply preferred_src_origin in Hp; [|exact Hf].
-      destruct Hp as [Hin|(prefs & Hd & Hi & Hm)].
-      + apply in_map. exact Hin.
-      + apply dict_get_in in Hd. destruct Hd as (k & Hk & _). eapply Hsp; eassumption.
+    - exists (r_srs r). split; [eapply preferred_src_in; exact Hp|]. unfold srs_eq. lia.
   Qed.
 
   (* ---------------------------------------------------------------- gates *)
@@ -375,23 +361,22 @@ Lemma url_params_keys tmpl fixed r x :
   In x (map d_lower (r_fwd r)).
 Proof.
   unfold url_params.
+  set (m0 := pupdate tmpl _).
   set (m4 := pset K_FORMAT _ _).
-  set (m5 := pupdate m4 _).
-  set (m6 := fold_left _ fixed m5).
+  set (m6 := fold_left _ fixed m4).
   intros H.
   assert (H6 : In x (keys m6) \/ x = K_STYLES).
   { destruct (pget K_STYLES m6); [left; exact H|]. apply pset_keys in H. tauto. }
   destruct H6 as [H6|H6]; [|tauto].
-  apply fold_fixed_keys in H6. destruct H6 as [H5|H5]; [|tauto].
-  apply pupdate_keys in H5. destruct H5 as [H4|H4].
-  - unfold m4 in H4.
-    apply pset_keys in H4. destruct H4 as [H4|H4]; [subst; right; left; reflexivity|].
-    apply pset_keys in H4. destruct H4 as [H4|H4]; [subst; right; left; reflexivity|].
-    apply pset_keys in H4. destruct H4 as [H4|H4]; [subst; right; left; reflexivity|].
-    apply pset_keys in H4. destruct H4 as [H4|H4]; [subst; right; left; reflexivity|].
-    apply pset_keys in H4. destruct H4 as [H4|H4]; [subst; right; left; reflexivity|].
-    left. exact H4.
-  - right. right. right. right. rewrite map_map in H4. cbn in H4. exact H4.
+  apply fold_fixed_keys in H6. destruct H6 as [H4|H4]; [|tauto].
+  unfold m4 in H4.
+  apply pset_keys in H4. destruct H4 as [H4|H4]; [subst; right; left; reflexivity|].
+  apply pset_keys in H4. destruct H4 as [H4|H4]; [subst; right; left; reflexivity|].
+  apply pset_keys in H4. destruct H4 as [H4|H4]; [subst; right; left; reflexivity|].
+  apply pset_keys in H4. destruct H4 as [H4|H4]; [subst; right; left; reflexivity|].
+  apply pset_keys in H4. destruct H4 as [H4|H4]; [subst; right; left; reflexivity|].
+  unfold m0 in H4. apply pupdate_keys in H4. destruct H4 as [H4|H4]; [left; exact H4|].
+  right. right. right. right. rewrite map_map in H4. cbn in H4. exact H4.
 Qed.
 
 Lemma dims_for_params_in fwd ds d :
@@ -401,14 +386,7 @@ Proof.
   apply existsb_exists in H2. destruct H2 as (k & Hk & He). replace (d_lower d) with k by lia. exact Hk.
 Qed.
 
-(* when no reserved name is forwarded, the negotiated values are what the URL carries *)
-Lemma fold_pset_pget_other (l : params) m k :
-  ~ In k (keys l) -> pget k (fold_left (fun m' kvs => pset (fst kvs) (snd kvs) m') l m) = pget k m.
-Proof.
-  revert m. induction l as [|[k' vs] r IH]; cbn; intros m Hn; [reflexivity|].
-  rewrite IH by tauto. apply pget_pset_other. intros E. apply Hn. left. congruence.
-Qed.
-
+(* the negotiated values are what the URL carries, whatever is forwarded *)
 Lemma fold_fixed_pget_other (fixed : list (Z * Z)) m k :
   ~ In k (map fst fixed) -> pget k (fold_left (fun m kv => pset (fst kv) [VStr (snd kv)] m) fixed m) = pget k m.
 Proof.
@@ -417,53 +395,51 @@ Proof.
 Qed.
 
 Lemma url_params_negotiated tmpl fixed r k :
-  reserved k = true -> ~ In k (map d_lower (r_fwd r)) -> ~ In k (map fst fixed) ->
+  reserved k = true -> ~ In k (map fst fixed) ->
   pget k (url_params tmpl fixed r) =
   pget k (pset K_FORMAT [VStr (f_mime (r_fmt r))] (pset K_SRS [VStr (s_code (r_srs r))]
-         (pset K_HEIGHT [VInt (r_h r)] (pset K_WIDTH [VInt (r_w r)] (pset K_BBOX [VBox (r_bbox r)] tmpl))))).
+         (pset K_HEIGHT [VInt (r_h r)] (pset K_WIDTH [VInt (r_w r)] (pset K_BBOX [VBox (r_bbox r)]
+         (pupdate tmpl (map (fun d => (d_lower d, VStr (d_val d))) (r_fwd r)))))))).
 Proof.
-  intros Hr Hf Hx. unfold url_params.
+  intros Hr Hx. unfold url_params.
   set (m4 := pset K_FORMAT _ _).
-  set (m5 := pupdate m4 _).
-  set (m6 := fold_left _ fixed m5).
+  set (m6 := fold_left _ fixed m4).
   assert (Hk : k <> K_STYLES) by (unfold reserved, K_BBOX, K_WIDTH, K_HEIGHT, K_SRS, K_FORMAT, K_STYLES in *; lia).
-  assert (H6 : pget k m6 = pget k m4).
-  { unfold m6. rewrite fold_fixed_pget_other by exact Hx. unfold m5, pupdate.
-    apply fold_pset_pget_other. intros Hin. apply group_keys in Hin. rewrite map_map in Hin. cbn in Hin. tauto. }
+  assert (H6 : pget k m6 = pget k m4) by (unfold m6; apply fold_fixed_pget_other; exact Hx).
   destruct (pget K_STYLES m6); [exact H6|]. rewrite pget_pset_other by exact Hk. exact H6.
 Qed.
 
 Lemma url_srs tmpl fixed r :
-  ~ In K_SRS (map d_lower (r_fwd r)) -> ~ In K_SRS (map fst fixed) ->
+  ~ In K_SRS (map fst fixed) ->
   pget K_SRS (url_params tmpl fixed r) = Some [VStr (s_code (r_srs r))].
 Proof.
-  intros H1 H2. rewrite url_params_negotiated by (try reflexivity; assumption).
+  intros H2. rewrite url_params_negotiated by (try reflexivity; assumption).
   rewrite pget_pset_other by (unfold K_SRS, K_FORMAT; lia). apply pget_pset_same.
 Qed.
 
 Lemma url_format tmpl fixed r :
-  ~ In K_FORMAT (map d_lower (r_fwd r)) -> ~ In K_FORMAT (map fst fixed) ->
+  ~ In K_FORMAT (map fst fixed) ->
   pget K_FORMAT (url_params tmpl fixed r) = Some [VStr (f_mime (r_fmt r))].
 Proof.
-  intros H1 H2. rewrite url_params_negotiated by (try reflexivity; assumption). apply pget_pset_same.
+  intros H2. rewrite url_params_negotiated by (try reflexivity; assumption). apply pget_pset_same.
 Qed.
 
 Lemma url_bbox tmpl fixed r :
-  ~ In K_BBOX (map d_lower (r_fwd r)) -> ~ In K_BBOX (map fst fixed) ->
+  ~ In K_BBOX (map fst fixed) ->
   pget K_BBOX (url_params tmpl fixed r) = Some [VBox (r_bbox r)].
 Proof.
-  intros H1 H2. rewrite url_params_negotiated by (try reflexivity; assumption).
+  intros H2. rewrite url_params_negotiated by (try reflexivity; assumption).
   rewrite !pget_pset_other by (unfold K_BBOX, K_WIDTH, K_HEIGHT, K_SRS, K_FORMAT; lia). apply pget_pset_same.
 Qed.
 
-(* no forwarded name collides with bbox / width / height / srs / format *)
-Definition fwd_reserved_free (src : wms_source) : Prop := forall k, In k (w_fwd src) -> reserved k = false.
-
-Lemma fwd_free_not_in src q k :
-  fwd_reserved_free src -> reserved k = true -> ~ In k (map d_lower (dims_for_params (w_fwd src) (q_dims q))).
+Lemma url_size tmpl fixed r :
+  ~ In K_WIDTH (map fst fixed) -> ~ In K_HEIGHT (map fst fixed) ->
+  pget K_WIDTH (url_params tmpl fixed r) = Some [VInt (r_w r)] /\
+  pget K_HEIGHT (url_params tmpl fixed r) = Some [VInt (r_h r)].
 Proof.
-  intros Hf Hr Hin. apply in_map_iff in Hin. destruct Hin as (d & Hd & Hi).
-  apply dims_for_params_in in Hi. destruct Hi as [_ Hi]. rewrite Hd in Hi. apply Hf in Hi. congruence.
+  intros H1 H2. split; rewrite url_params_negotiated by (try reflexivity; assumption).
+  - rewrite !pget_pset_other by (unfold K_BBOX, K_WIDTH, K_HEIGHT, K_SRS, K_FORMAT; lia). apply pget_pset_same.
+  - rewrite !pget_pset_other by (unfold K_BBOX, K_WIDTH, K_HEIGHT, K_SRS, K_FORMAT; lia). apply pget_pset_same.
 Qed.
 
 (* ------------------------------------------------------------------ tile sources *)
@@ -669,17 +645,20 @@ Module Examples.
   Proof. vm_compute. reflexivity. Qed.
   Example ex_too_coarse : wms_get_map Tid 1 1 src1 (mkQuery (0, 0, 25600, 25600) 256 256 s3857 png_typed []) = Blank.
   Proof. vm_compute. reflexivity. Qed.
-  Example ex_hyp_spelled : pref_spelled_as_supported src1.
-  Proof.
-    unfold pref_spelled_as_supported, src1. cbn [w_pref w_srs]. intros k prefs p [H|[]] Hp _. inversion H; subst.
-    destruct Hp as [<-|[]]. cbn. left. reflexivity.
-  Qed.
-  Example ex_hyp_fwd_free : fwd_reserved_free src1.
-  Proof. unfold fwd_reserved_free, src1. cbn [w_fwd]. intros k [<-|[]]. reflexivity. Qed.
+  (* preferred_src_proj spells the SRS with an alias code (12): the supported code (10) is sent *)
+  Example ex_pref_alias :
+    wms_get_map Tid 1 1 (mkWms [s3857] [(s4326, [s900913])] [] None None None [])
+                (mkQuery (0, 0, 256, 256) 256 256 s4326 png []) =
+    Request (mkReq (0, 0, 256, 256) 256 256 s3857 png []).
+  Proof. vm_compute. reflexivity. Qed.
+  (* forward_req_params [srs]: the negotiated code (10) wins over the client's value (13) *)
+  Example ex_fwd_srs :
+    pget K_SRS (url_params [] [] (mkReq (0, 0, 256, 256) 256 256 s3857 png [(90, K_SRS, 13)])) = Some [VStr 10].
+  Proof. vm_compute. reflexivity. Qed.
   Example ex_url :
     url_params [(60, [VStr 61])] [(70, 71)] (mkReq (100, 100, 356, 356) 256 256 s3857 png [(30, 20, 40)]) =
-    [(60, [VStr 61]); (K_BBOX, [VBox (100, 100, 356, 356)]); (K_WIDTH, [VInt 256]); (K_HEIGHT, [VInt 256]);
-     (K_SRS, [VStr 10]); (K_FORMAT, [VStr 51]); (20, [VStr 40]); (70, [VStr 71]); (K_STYLES, [VStr V_EMPTY])].
+    [(60, [VStr 61]); (20, [VStr 40]); (K_BBOX, [VBox (100, 100, 356, 356)]); (K_WIDTH, [VInt 256]); (K_HEIGHT, [VInt 256]);
+     (K_SRS, [VStr 10]); (K_FORMAT, [VStr 51]); (70, [VStr 71]); (K_STYLES, [VStr V_EMPTY])].
   Proof. vm_compute. reflexivity. Qed.
 
   (* tile source: 10 px tiles, resolutions 10 and 5 *)
@@ -701,36 +680,6 @@ Module Examples.
   Proof. vm_compute. reflexivity. Qed.
 End Examples.
 
-(* Defect 1 (preferred_src returns the object of the preferred list, not the supported one): a configuration
-   with supported_srs [EPSG:3857-like code 10] and preferred_src_proj {4326: [code 12]} where code 12 is equal to
-   code 10 as an SRS sends srs code 12. *)
-Lemma srs_code_supported_refuted :
-  exists T kn kd src q r,
-    wms_get_map T kn kd src q = Request r /\ w_srs src <> [] /\
-    ~ In (s_code (r_srs r)) (map s_code (w_srs src)).
-Proof.
-  exists Examples.Tid, 1, 1,
-    (mkWms [Examples.s3857] [(Examples.s4326, [Examples.s900913])] [] None None None []),
-    (mkQuery (0, 0, 256, 256) 256 256 Examples.s4326 Examples.png []),
-    (mkReq (0, 0, 256, 256) 256 256 Examples.s900913 Examples.png []).
-  split; [vm_compute; reflexivity|]. split; [discriminate|].
-  cbn. intros [H|[]]. discriminate.
-Qed.
-
-(* Defect 2 (forwarded parameters are merged after the negotiated ones): with forward_req_params [srs] the URL
-   carries the client's value instead of the negotiated code. *)
-Lemma url_srs_refuted :
-  exists T kn kd src q r tmpl fixed v,
-    wms_get_map T kn kd src q = Request r /\ w_srs src = [Examples.s3857] /\
-    pget K_SRS (url_params tmpl fixed r) = Some [VStr v] /\ v <> s_code Examples.s3857.
-Proof.
-  exists Examples.Tid, 1, 1,
-    (mkWms [Examples.s3857] [] [] None None None [K_SRS]),
-    (mkQuery (0, 0, 256, 256) 256 256 Examples.s3857 Examples.png [(90, K_SRS, 13)]),
-    (mkReq (0, 0, 256, 256) 256 256 Examples.s3857 Examples.png [(90, K_SRS, 13)]), [], [], 13.
-  split; [vm_compute; reflexivity|]. split; [reflexivity|]. split; [vm_compute; reflexivity|]. cbn. lia.
-Qed.
-
 (* ------------------------------------------------------------------ statements about emitted requests *)
 Lemma request_format_supported T kn kd src q r :
   wms_get_map T kn kd src q = Request r -> w_fmts src <> [] ->
@@ -747,25 +696,23 @@ Proof.
   apply dims_for_params_in. exact Hin.
 Qed.
 
-Lemma request_fwd_free T kn kd src q r k :
-  wms_get_map T kn kd src q = Request r -> fwd_reserved_free src -> reserved k = true ->
-  ~ In k (map d_lower (r_fwd r)).
-Proof.
-  intros H Hf Hr. apply wms_request_inv in H. destruct H as (_ & _ & _ & Hd & _). rewrite Hd.
-  apply fwd_free_not_in; assumption.
-Qed.
-
 Lemma request_url_srs T kn kd src q r tmpl fixed :
-  wms_get_map T kn kd src q = Request r -> fwd_reserved_free src -> ~ In K_SRS (map fst fixed) ->
+  wms_get_map T kn kd src q = Request r -> ~ In K_SRS (map fst fixed) ->
   pget K_SRS (url_params tmpl fixed r) = Some [VStr (s_code (r_srs r))].
-Proof. intros H Hf Hx. apply url_srs; [|exact Hx]. eapply request_fwd_free; try eassumption. reflexivity. Qed.
+Proof. intros _ Hx. apply url_srs. exact Hx. Qed.
 
 Lemma request_url_format T kn kd src q r tmpl fixed :
-  wms_get_map T kn kd src q = Request r -> fwd_reserved_free src -> ~ In K_FORMAT (map fst fixed) ->
+  wms_get_map T kn kd src q = Request r -> ~ In K_FORMAT (map fst fixed) ->
   pget K_FORMAT (url_params tmpl fixed r) = Some [VStr (f_mime (r_fmt r))].
-Proof. intros H Hf Hx. apply url_format; [|exact Hx]. eapply request_fwd_free; try eassumption. reflexivity. Qed.
+Proof. intros _ Hx. apply url_format. exact Hx. Qed.
 
 Lemma request_url_bbox T kn kd src q r tmpl fixed :
-  wms_get_map T kn kd src q = Request r -> fwd_reserved_free src -> ~ In K_BBOX (map fst fixed) ->
+  wms_get_map T kn kd src q = Request r -> ~ In K_BBOX (map fst fixed) ->
   pget K_BBOX (url_params tmpl fixed r) = Some [VBox (r_bbox r)].
-Proof. intros H Hf Hx. apply url_bbox; [|exact Hx]. eapply request_fwd_free; try eassumption. reflexivity. Qed.
+Proof. intros _ Hx. apply url_bbox. exact Hx. Qed.
+
+Lemma request_url_size T kn kd src q r tmpl fixed :
+  wms_get_map T kn kd src q = Request r -> ~ In K_WIDTH (map fst fixed) -> ~ In K_HEIGHT (map fst fixed) ->
+  pget K_WIDTH (url_params tmpl fixed r) = Some [VInt (r_w r)] /\
+  pget K_HEIGHT (url_params tmpl fixed r) = Some [VInt (r_h r)].
+Proof. intros _ H1 H2. apply url_size; assumption. Qed.
